@@ -662,13 +662,15 @@ def run(prop, seed, budget, ctx):
                                  info={k: v for k, v in info.items() if k != "in_scope"}))
         elif k_ok is False:
             failures.append(pack(t, d, o, kind="K", why="model and implementation disagree", impl=im, model=m, k_ok=False))
-    if prop in ("C13", "C03"):
+    if prop in ("C13", "C03", "C14"):
         from discr import run_discr
-        df, dn, dd, dh = run_discr(seed, budget, want=("dispatch", "roundtrip", "tagged") if prop == "C13" else ("purity",))
+        df, dn, dd, dh = run_discr(seed, budget, want={"C13": ("dispatch", "roundtrip", "tagged"), "C03": ("purity",), "C14": ("coerce",)}[prop])
         failures += df; distinct |= dd
         for k, v in dh.items(): hist["discriminated:" + k] += v
-        extra_rule = "; discriminated unions (annotated discriminator with default / explicit / partial mapping, Literal discriminator fields, aliased or absent) and a TaggedUnion: " + \
-                     ("dispatch = the mapped alternative alone, unknown / missing tag rejected, serialization adds the key and round-trips" if prop == "C13" else "input not modified, repeated deserialization stable, no crash")
+        extra_rule = "; discriminated unions (annotated discriminator with default / explicit / partial mapping, or inherited from a parent class; Literal discriminator fields, aliased or absent; alternatives with a flattened or pattern-properties field) and a TaggedUnion: " + \
+                     {"C13": "dispatch = the mapped alternative alone, unknown / missing tag rejected, serialization adds the key and round-trips",
+                      "C03": "input not modified, repeated deserialization stable, no crash",
+                      "C14": "the coerced run accepts what the strict run accepts, with the same value; a numeric string is converted inside the alternative"}[prop]
         return {"evaluations": len(cases) + dn, "distinct_nontrivial": len(distinct), "rule": RULES[prop] + extra_rule, "samples": samples,
                 "histograms": dict(hist), "in_scope": in_scope, "correspondence": {"compared_with_model": k_checked, "disagreements": k_bad}, "failures": failures}
     if prop == "C08":
